@@ -16,6 +16,7 @@ def main():
     seed = int(os.environ.get("VERIF_SEED", "1") or "1")
     mod = importlib.import_module("props." + a.pid)
     ctx = vlib.Ctx(a.pid, tier, seed)
+    vlib.sync_alt_lean()  # scratch-worktree runs work on a private copy of the Lean project
     if a.replay:
         sys.exit(mod.replay(ctx, a.replay))
     sys.exit(vlib.standard_flow(ctx, mod.Spec()))
